@@ -11,7 +11,9 @@ EXTENDS Integers, Sequences, SequencesExt, FiniteSets, TLC
 CONSTANTS MaxMut
 
 Kinds == {"xpriv", "edpriv", "xpub", "edpub"}
-Armours == {"der", "pem", "pem_crlf", "pem_oneline", "pem_wrap76"}
+\* pem_bag / pem_comment / pem_blank / pem_bom: data BEFORE the encapsulation boundary, pem_trailing: after it (RFC 7468 s.2:
+\* permitted; `openssl pkcs12 -nodes` writes "Bag Attributes ..." before every key)
+Armours == {"der", "pem", "pem_crlf", "pem_oneline", "pem_wrap76", "pem_bag", "pem_comment", "pem_blank", "pem_bom", "pem_trailing"}
 \* structured mutations and what the specification requires of the parser
 Must == [ none            |-> "accept",
           outer_tag       |-> "reject",    \* outer SEQUENCE tag replaced (SET)
